@@ -68,7 +68,11 @@
                                                            witnesses tie_witness, dup_equal_witness, dup_personality_witness
   ... and of -M / PDSH_MISC_MODULES only                misc_list_from_command_line (composed with C18.precedence)
   -M first, then priority-then-name order               forced_first, spec_sound (clause `order`), list_sort correct
-                                                           (Mod/SortLemmas.lean)
+                                                           (Mod/SortLemmas.lean); list_sort's POINTER LOOP (cursors ppPrev /
+                                                           pp / ppPos on links, Mod/SortCursor.lean) computes the modelled
+                                                           sort: list_sort_loop_as_written, loader_runs_pointer_loop (the
+                                                           driver runs that form); the cursor re-basing test is
+                                                           needed: list_sort_rebase_witness (seeded change C17-13)
   a module with a taken option is inactive as a whole   conflict_all_or_nothing, initialize_all_or_nothing,
                                                            inactive_options_not_accepted
   same type and name: only the higher priority          dup_higher_priority_only
@@ -90,6 +94,7 @@ import PdshVerif.Mod.SpecSound
 import PdshVerif.Mod.SplitLemmas
 import PdshVerif.Mod.PrioWrap
 import PdshVerif.Mod.Now
+import PdshVerif.Mod.SortCursor
 import PdshVerif.Props.C18
 
 namespace PdshVerif.C17
@@ -521,6 +526,44 @@ theorem priority_order_all_priorities (l : List Mod) :
   rw [Tie.cmpF_le_iff] at h
   unfold Tie.le3 at h
   omega
+
+/-- list.c's list_sort AS WRITTEN, with its three link cursors (`ppPrev`, `pp`, `ppPos`) and the re-basing of `ppPrev`
+    after a move (`listSortCursor`, Mod/SortCursor.lean), is the `listSort` the loader model and every theorem here use --
+    for every comparison function and every list; so module_list after mod_load_modules_from_dir is a permutation of the
+    registered modules in descending priority order (name, then type breaking ties), whatever the initial (readdir)
+    order and however many modules there are -/
+theorem list_sort_loop_as_written (l : List Mod) :
+    (∀ (cmp : Mod → Mod → Int), listSortCursor cmp l = listSort cmp l) ∧
+    (listSortCursor Now.cmpF l).Perm l ∧
+    SortedBy Tie.cmpF (listSortCursor Now.cmpF l) ∧
+    (listSortCursor Now.cmpF l).Pairwise (fun a b => a.prio ≥ b.prio) ∧
+    (∀ l₂ : List Mod, l.Nodup → l₂.Perm l → (∀ a ∈ l₂, ∀ b ∈ l₂, a ≠ b → Tie.cmpF a b ≠ 0) →
+      listSortCursor Now.cmpF l₂ = listSortCursor Now.cmpF l) := by
+  obtain ⟨_, h2, h3, h4⟩ := priority_order_all_priorities l
+  refine ⟨fun cmp => listSortCursor_eq cmp l, ?_, ?_, ?_, ?_⟩
+  · rw [listSortCursor_eq]; exact h2
+  · rw [listSortCursor_eq]; exact h3
+  · rw [listSortCursor_eq]; exact h4
+  · intro l₂ hn hp hd
+    rw [listSortCursor_eq, listSortCursor_eq, Now.listSort_eq, Now.listSort_eq]
+    exact listSort_unique Tie.cmpF_totalPre l₂ l (hp.nodup_iff.mpr hn) hn (fun a => hp.mem_iff) hd
+
+/-- what `pdshmodel mod model cursor` runs -- the loader with list_sort's pointer loop inside -- is the loader of the
+    theorems of this file (`Now.loadAll`, and `Now.loadAllRename` with findings/C17-sameobj-tie.patch), for every
+    environment; the check compares THAT form with pdsh on every case -/
+theorem loader_runs_pointer_loop (oid : Str → Nat) (e : Env) :
+    Now.loadAllCursor false oid e = Now.loadAll oid e ∧ Now.loadAllCursor true oid e = Now.loadAllRename oid e :=
+  Now.loadAllCursor_eq oid e
+
+/-- non-vacuity: five modules' worth of keys in a bad initial order -/
+example : listSortCursor (fun a b : Int => a - b) [3, 2, 0, 1, 2] = [0, 1, 2, 2, 3] := by decide
+
+/-- the re-basing test of the loop is load-bearing (named witness): with `if (ppPos == &l->head)` in place of
+    `if (ppPrev == ppPos)` (seeded change C17-13) lists of up to three still sort, the list 0 3 1 2 does not -/
+theorem list_sort_rebase_witness :
+    listSortCursorG rebaseHeadOnly (fun a b : Int => a - b) [0, 3, 1, 2] = [0, 1, 3, 2]
+    ∧ listSortCursorG rebaseAsWritten (fun a b : Int => a - b) [0, 3, 1, 2] = [0, 1, 2, 3] :=
+  rebase_head_only_witness
 
 /-- the whole loader with the code's comparison is the loader of the theorems above, for every directory -/
 theorem loader_compares_as_modelled (e : Env) (d : Dir) :
